@@ -308,6 +308,11 @@ func New(config ...Config) fiber.Handler {
 
 // Check if request has directive
 func hasRequestDirective(c fiber.Ctx, directive string) bool {
-	// directive names are case-insensitive (RFC 9111 5.2)
-	return strings.Contains(utils.ToLower(c.Get(fiber.HeaderCacheControl)), directive)
+	// directive names are case-insensitive (RFC 9111 5.2); the list may come in several field lines (RFC 9110 5.3)
+	for _, line := range c.Request().Header.PeekAll(fiber.HeaderCacheControl) {
+		if strings.Contains(utils.ToLower(string(line)), directive) {
+			return true
+		}
+	}
+	return false
 }
